@@ -108,24 +108,30 @@ func (c *ClusterNodes) loopClusterNodes() {
 	for {
 		select {
 		case msg := <-EngineGlobal.clusterChan:
+			// An unusable answer to the probe is skipped: it must not end this goroutine, otherwise no
+			// later topology change would ever be adopted.
 			if len(msg) < 3 {
-				return
+				continue
 			}
 			if msg[0] == '+' && msg[1] == 'O' && msg[2] == 'K' {
-				return
+				continue
 			}
 			if msg[0] == '$' && msg[1] == '-' && msg[2] == '1' {
-				return
+				continue
+			}
+			if nl := bytes.IndexByte(msg, '\n'); msg[0] != '$' || nl < 2 || nl+1 > len(msg)-3 {
+				logging.Errorf("[cluster loop] update cluster nodes: nodes info is not a bulk string")
+				continue
 			}
 
 			length, err := parseLen(msg[1 : bytes.IndexByte(msg, '\n')-1])
 			if err != nil {
 				logging.Errorf("[cluster loop] update cluster nodes: nodes info invalid: %s", err)
-				return
+				continue
 			}
 			if length > 163840 {
 				logging.Errorf("[cluster loop] update cluster nodes: nodes info too large > 163840")
-				return
+				continue
 			}
 
 			if err := c.updateClusterNodes(string(msg[bytes.IndexByte(msg, '\n')+1 : len(msg)-3])); err != nil {
